@@ -214,8 +214,6 @@ Record pvd := mk_pvd {
   pv_vol_set_ident : list Z; pv_desc_char_set : charspec; pv_expl_char_set : charspec;
   pv_abstract : extent_ad; pv_copyright : extent_ad; pv_app_ident : entity; pv_date : tstamp;
   pv_impl_ident : entity; pv_impl_use : list Z; pv_predecessor : Z; pv_flags : Z }.
-Definition fmt_udf_pvd_widths : list Z :=
-  [16; 4; 4; 32; 2; 2; 2; 2; 4; 4; 128; 64; 64; 8; 8; 32; 12; 32; 64; 4; 2; 22].
 Definition pvd_fields (p : pvd) : list (list Z) :=
   [le32 (pv_seqnum p); le32 (pv_desc_num p); pack_s 32 (pv_vol_ident p); le16 1; le16 1;
    le16 (pv_interchange p); le16 (pv_max_interchange p); le32 1; le32 1; pack_s 128 (pv_vol_set_ident p);
@@ -232,7 +230,7 @@ Definition pvd_body (p : pvd) : option (list Z) := body_of (pvd_ok p) (pvd_field
 (* raises: vol_seqnum, max_vol_seqnum, char_set_list, max_char_set_list != 1; interchange_level not in
    (2, 3); flags not in (0, 1); reserved != 22 zeros; any nested parse *)
 Definition pvd_parse_body (data : list Z) : option pvd :=
-  match split_widths (widths fmt_udf_pvd_widths) data with
+  match split_widths [16; 4; 4; 32; 2; 2; 2; 2; 4; 4; 128; 64; 64; 8; 8; 32; 12; 32; 64; 4; 2; 22]%nat data with
   | Some ([_; f1; f2; f3; f4; f5; f6; f7; f8; f9; f10; f11; f12; f13; f14; f15; f16; f17; f18; f19; f20; f21], _) =>
       if negb (dle16 f4 =? 1) || negb (dle16 f5 =? 1) then None else
       if negb ((dle16 f6 =? 2) || (dle16 f6 =? 3)) then None else
